@@ -91,7 +91,8 @@ def gen_case(rng, mixed_lang=None):
     outside = {}
     n_out = rng.choice([0, 1, 1, 2])
     for k in range(n_out):
-        name = f"o{k}.h"
+        # also the usual style of third-party headers: no extension at all, or one the tool does not know
+        name = rng.choice([f"o{k}.h", f"o{k}.h", f"O{k}Core", f"o{k}.def", f"o{k}.tpp"])
         n = rng.choice(G.NAMES)
         b = [f"#define {n} {rng.randint(0, 1)}", f"int outside{k};"]
         if rng.random() < 0.5:
@@ -411,12 +412,45 @@ def load_config(root, case):
     return {name: config.load_database(os.path.join(root, f"{name}.json"), root) for name in case["platforms"]}
 
 
-def run_find(root, cfg, excludes):
+def run_find(root, cfg, excludes, lookups=None):
+    """lookups: a list that receives every include look-up the real code makes
+    [platform, name, including directory, system form, the platform's search directories, result]"""
     from codebasin import CodeBase, finder
+    from codebasin import platform as plat
 
     cb = CodeBase(root, exclude_patterns=list(excludes))
-    st = finder.find(root, cb, cfg, summarize_only=False)
+    if lookups is None:
+        st = finder.find(root, cb, cfg, summarize_only=False)
+        return cb, st
+    orig = plat.Platform.find_include_file
+
+    def spy(self, filename, this_path, is_system_include=False):
+        r = orig(self, filename, this_path, is_system_include)
+        lookups.append([self.name, filename, this_path, bool(is_system_include), list(self._include_paths), r])
+        return r
+
+    plat.Platform.find_include_file = spy
+    try:
+        st = finder.find(root, cb, cfg, summarize_only=False)
+    finally:
+        plat.Platform.find_include_file = orig
     return cb, st
+
+
+def audit_lookups(ctx, case_rec, lookups, d, what):
+    """'still preprocessed when ... included': a file named by an #include is the first existing regular file in the
+    including directory (quote form) and the command's search directories, whatever its name or extension and wherever
+    it lies (inside the root, excluded, outside); the file-system facts are read directly from the disk"""
+    for pname, name, here, sysinc, dirs, res in lookups:
+        cands = ([] if sysinc else [os.path.join(here, name)]) + [os.path.join(p, name) for p in dirs]
+        want = next((c for c in cands if os.path.isfile(c)), None)
+        ctx.dist["include_lookups_audited"] += 1
+        if (None if want is None else os.path.realpath(want)) != (None if res is None else os.path.realpath(res)):
+            ctx.violation(f"{what}: platform {pname}: #include {'<' if sysinc else chr(34)}{name}{'>' if sysinc else chr(34)} from "
+                          f"{os.path.relpath(here, d)}/ resolves to {None if res is None else os.path.relpath(res, d)}; the first existing file in the "
+                          f"search order is {None if want is None else os.path.relpath(want, d)} (it must be preprocessed, its macros keep their effect)", case_rec)
+            return False
+    return True
 
 
 def nodes_of(st):
@@ -508,7 +542,8 @@ def check_case(ctx, drv, case, exclude_lists, origin, effect_runs=6):
         outside_abs = sorted(os.path.join(d, p) for p in case["files"] if p.startswith("outside/"))
         try:
             cfg = load_config(root, case)
-            cb0, st0 = run_find(root, cfg, [])
+            lookups0 = []
+            cb0, st0 = run_find(root, cfg, [], lookups0)
             members0 = sorted(cb0)
             att0 = nodes_of(st0)
             sm0 = norm_setmap(st0.get_setmap(cb0))
@@ -517,6 +552,7 @@ def check_case(ctx, drv, case, exclude_lists, origin, effect_runs=6):
             rep["base_exc"] = f"{type(e).__name__}: {e}"
             return rep
         base_case = {"files": case["files"], "platforms": case["platforms"], "excludes": [], "intended": []}
+        audit_lookups(ctx, base_case, lookups0, d, "analysis without exclusion")
         exp0 = sorted(os.path.join(root, f) for f in allsrc)
         # "still preprocessed when compiled": every compile command whose file exists is kept by the loader and its
         # file is walked for its platform, wherever the file lies
@@ -575,7 +611,10 @@ def check_case(ctx, drv, case, exclude_lists, origin, effect_runs=6):
             expected = [f for f in exp0 if f not in X]
             info = {}
             try:
-                cbE, stE = run_find(root, cfg, pats)
+                lookupsE = []
+                cbE, stE = run_find(root, cfg, pats, lookupsE)
+                audit_lookups(ctx, c,
+                              lookupsE, d, f"analysis with excludes {pats}")
                 membersE = sorted(cbE)
                 attE = nodes_of(stE)
                 smE = norm_setmap(stE.get_setmap(cbE))
@@ -747,7 +786,8 @@ def check_outside(ctx, case, att0, sm0, cls0, d0):
                 bad.append(f"{lost} are preprocessed when {variant} the root but not when placed outside it")
             want = collections.Counter(sm0)
             if not pats:
-                want.update(own_setmap(att2, [k for k in att2 if k.startswith("root/zz_outside/")]))
+                # (moved files without a recognised source extension are not members of the code base inside the root either)
+                want.update(own_setmap(att2, [k for k in att2 if k.startswith("root/zz_outside/") and k.endswith(SRC_EXT)]))
             if drop_zero(dict(want)) != drop_zero(sm2) and not changed and not lost:
                 bad.append(f"setmap with the files {variant} {show(sm2)} != setmap with them outside {show(sm0)}" + ("" if pats else " + their own lines"))
             if bad:
@@ -1099,6 +1139,23 @@ def run(ctx, drv):
         allpaths = sorted(p[len("root/"):] for p in case["files"] if p.startswith("root/"))
         subs = subsets_for(ctx.rng, allsrc, 12 if not ctx.thorough() else 24)
         lists = [(patterns_for(ctx.rng, s, allsrc, allpaths), s) for s in subs]
+        # whole directories, anchored and unanchored, with a nested directory of the same name elsewhere in the tree:
+        # `/T/` excludes the top-level T only, `T/` every directory called T
+        tops = sorted({f.split("/")[0] for f in allsrc if "/" in f})
+        if tops and ctx.rng.random() < 0.6:
+            T = ctx.rng.choice(tops)
+            others = sorted({os.path.dirname(f) for f in allsrc if os.path.dirname(f) and not (f.startswith(T + "/"))}) or ["nest"]
+            X = ctx.rng.choice(others)
+            twin = f"{X}/{T}/twin.c"
+            case["files"]["root/" + twin] = "int twin_a;\nint twin_b;\n#ifdef A\nint twin_c;\n#endif\n"
+            if case["platforms"] and ctx.rng.random() < 0.7:
+                pn = ctx.rng.choice(sorted(case["platforms"]))
+                case["platforms"][pn].append({"file": twin, "arguments": ["gcc", "-DA=1", "-c", twin]})
+            allsrc = source_files(case)
+            allpaths = sorted(p[len("root/"):] for p in case["files"] if p.startswith("root/"))
+            lists.append((["/" + T + "/"], [f for f in allsrc if f.startswith(T + "/")]))
+            lists.append(([T + "/"], [f for f in allsrc if T in f.split("/")[:-1]]))
+            ctx.dist["nested_same_name_directory"] += 1
         check_case(ctx, drv, case, lists, f"random{i}")
         if i < ncli and lists:
             neg = [l for l in lists if any(p.startswith("!") for p in l[0])]
